@@ -306,81 +306,8 @@ def run(ctx):
     # returns for model expression trees, see _expression_printer)
     _expression_printer(ctx, em)
 
-    # ================================================================ C01.f (wire classification)
-    # a comb target is printed as a continuous `assign` (no reset default) only when its single driver assigns the *whole* signal:
-    # every way _use_wire() can answer true passes "one statement", "an _Assign" and "not a slice target"
-    uw = vm.func("_use_wire")
-    need = [("len(stmts) == 1", True), ("isinstance(stmts[0], _Assign)", True), ("isinstance(stmts[0].l, _Slice)", False)]
-    n_ret = 0
-    bad_uw = None
-    for p in P.feasible_paths(uw):
-        if p.end != "return" or p.end_node.value is None:
-            continue
-        n_ret += 1
-        facts = [(P.canon_test(t, pol)) for t, pol in p.tests_before(len(p.ev))]
-        rv = p.end_node.value
-        # the returned expression, taken apart like a test: it is true only if all its conjuncts are
-        conj = []
-
-        def split(e, pol=True):
-            if isinstance(e, ast.BoolOp) and isinstance(e.op, ast.And) and pol:
-                for x in e.values:
-                    split(x, True)
-            elif isinstance(e, ast.BoolOp) and isinstance(e.op, ast.Or) and not pol:
-                for x in e.values:
-                    split(x, False)
-            elif isinstance(e, ast.UnaryOp) and isinstance(e.op, ast.Not):
-                split(e.operand, not pol)
-            else:
-                conj.append(P.canon_test(e, pol))
-        if isinstance(rv, ast.Constant):
-            if not rv.value:
-                continue            # answers "no wire": nothing to show
-        else:
-            split(rv)
-        have = set(facts) | set(conj)
-        miss = [t for t, pol in need if P.canon_test(t, pol) not in have]
-        if miss and bad_uw is None:
-            bad_uw = (p, miss)
-    ctx.ob("C01.f", VER, "_use_wire", "wire only for a single whole-signal assignment (one statement, an _Assign, not a slice target)",
-           n_ret > 0 and bad_uw is None,
-           "" if (n_ret and bad_uw is None) else (f"_use_wire can answer true without {bad_uw[1]} (return at L{bad_uw[0].end_node.lineno}): a signal driven "
-                                                 f"by one assignment to a slice of itself becomes a wire with `assign y[3:0] = ..` -- its other bits are "
-                                                 f"undriven in Verilog while the simulator holds them at the reset value" if bad_uw else "no return"), uw)
-
-    # ================================================================ C01.f
-    for fname, loopvar in (("_generate_combinatorial_logic_sim", None), ("_generate_combinatorial_logic_synth", "g[0]")):
-        f = vm.func(fname)
-        els = None
-        for n in ast.walk(f):
-            if isinstance(n, ast.If) and "_use_wire" in norm(n.test):
-                els = n.orelse
-        ctx.need(els is not None, f"{fname}: wire/always split vanished")
-        idx_reset = idx_body = -1
-        reset_ok = False
-        for i, st in enumerate(els):
-            txt = norm(st)
-            if ".reset" in txt and idx_reset < 0:
-                idx_reset = i
-                if loopvar:
-                    it = st.iter if isinstance(st, ast.For) else None
-                    if isinstance(it, ast.Call) and norm(it.func) == "sorted" and it.args:
-                        it = it.args[0]
-                    reset_ok = it is not None and norm(it) == loopvar and \
-                        "ns.get_name(t)" in txt and "_generate_expression(ns, t.reset)" in txt
-                else:
-                    reset_ok = "ns.get_name(t)" in txt and "_generate_expression(ns, t.reset)" in txt
-            if "_generate_node(" in txt and idx_body < 0:
-                idx_body = i
-        ok = 0 <= idx_reset < idx_body and reset_ok
-        ctx.ob("C01.f", VER, fname, "reset default for each target precedes the statements", ok,
-               "" if ok else "the always @(*) block no longer assigns every target its reset value before the statements: latches / "
-                             "stale values in hardware, while the simulator re-initialises comb targets", f)
-        if not loopvar:
-            # sim flavour: one block per target, filtered on that target
-            calls = [c for st in els for c in ast.walk(st) if isinstance(c, ast.Call) and norm(c.func) == "_generate_node"]
-            ok = len(calls) == 1 and len(calls[0].args) == 5 and norm(calls[0].args[4]) == "t"
-            ctx.ob("C01.f", VER, fname, "per-target block filtered on its target", ok, "" if ok else "target filter dropped", f)
+    # ================================================================ C01.f (wire classification, reset defaults: decided on the text the
+    # interpreted block printers return, see the end of _node_printer)
     sinit_txt = norm(sinit)
     ok = "self.fragment.comb[0:0] = [s.eq(s.reset) for s in list_targets(self.fragment.comb)]" in sinit_txt
     ctx.ob("C01.f", SIM, "Simulator.__init__", "simulator defaults comb targets to reset first", ok, "" if ok else "simulator semantics changed", sinit)
@@ -592,15 +519,8 @@ def run(ctx):
             ok = sgn is not None and norm(sgn) == "False"
             ctx.ob("C01.k", EXP, fname, f"reported unsigned (L{p.end_node.lineno})", ok, "" if ok else f"signedness {norm(sgn) if sgn is not None else '?'}", p.end_node)
 
-    # ================================================================ C01.l
-    fors = [n for n in ast.walk(sy) if isinstance(n, ast.For)]
-    ok = len(fors) == 1 and "f.sync.items()" in norm(fors[0].iter) and norm(fors[0].target) == "(k, v)"
-    if ok:
-        body = " ".join(norm(s) for s in fors[0].body)
-        ok = "ns.get_name(f.clock_domains[k].clk)" in body and "_generate_node(ns, AssignType.SIGNAL, 1, v)" in body and "posedge" in body
-    ctx.ob("C01.l", VER, "_generate_synchronous_logic", "clock of domain k with statements of domain k", ok,
-           "" if ok else "clock and statement list no longer come from the same (k, v) pair", sy)
-
+    # ================================================================ C01.l (clock / statement pairing: decided on the printed text, see
+    # _node_printer; the simulator side is checked above)
     # ================================================================ C01.m
     _slice_lowering(ctx, vm)
 
@@ -935,6 +855,196 @@ def _node_printer(ctx, vm):
                    "" if ok else f"a single assignment is printed {txt!r} for at={kind}, variable={var}; Verilog needs '{want_op}' (blocking vs non-blocking "
                                  f"changes read-after-write semantics)", fn)
     ctx.ob("C01.p", VER, "_generate_node", "trees:present", len(trees) >= 7 and n_ev >= 60, f"{n_ev} printer runs", fn)
+
+    # ---------------------------------------------------------------- C01.f / C01.l: the block printers around _generate_node
+    # (_generate_combinatorial_logic_synth / _sim, _generate_synchronous_logic) interpreted on model fragments; the text is split
+    # into `assign` lines and always blocks, each body parsed as above, and executed: for every valuation the comb targets end up
+    # with the value the statements give them *starting from their reset value* (what the simulator does), wires are printed only
+    # for a single whole-signal assignment, and each clocked block carries the statements of its own domain.
+    import collections as _collections
+
+    def SG(tok):
+        return Key(__cls__=("Signal",), tok=tok, reset=NS(__cls__=("Constant",), tok="R" + tok, value=0, nbits=8, signed=False), signed=False,
+                   __len__=8, attr=set())
+
+    def PART(sig, tok):
+        return NS(__cls__=("_Slice",), value=sig, tok=tok, start=0, stop=4)
+
+    def sig_of(l):
+        return l["value"] if isinstance(l, NS) and "_Slice" in l.get("__cls__", ()) else l
+
+    def sig_of_tok(tok):
+        return {"y_lo": "y"}.get(tok, tok)
+
+    def targets2(n):
+        if isinstance(n, (list, tuple)):
+            return set().union(*[targets2(x) for x in n]) if n else set()
+        if n["kind"] == "A":
+            return {sig_of(n["l"])}
+        if n["kind"] == "I":
+            return targets2(n["t"]) | targets2(n["f"])
+        return set().union(*[targets2(v) for v in n["cases"].values()]) if n["cases"] else set()
+
+    def flat(l):
+        out = []
+        for x in l:
+            out.extend(flat(x) if isinstance(x, (list, tuple)) else [x])
+        return out
+
+    def group(stmts):
+        groups = []
+        for st in flat(stmts):
+            ts = targets2(st)
+            hit = [g for g in groups if g[0] & ts]
+            merged = (set(ts), [])
+            for g in hit:
+                merged[0].update(g[0])
+                merged[1].extend(g[1])
+                groups.remove(g)
+            merged[1].append(st)
+            groups.append(merged)
+        return groups
+    c2 = dict(consts)
+    c2["_generate_expression"] = Native(lambda ns_, e: ((e["tok"] if isinstance(e, NS) else str(e)), False))
+    c2["list_targets"] = Native(targets2)
+    c2["group_by_targets"] = Native(group)
+    c2["flat_iteration"] = Native(flat)
+    c2["is_variable"] = Native(lambda s_: False)
+    c2["collections"] = NS(defaultdict=Native(lambda f=None: _collections.defaultdict(list)), abc=NS())
+    ns2 = NS(get_name=Native(lambda s_: s_["tok"]))
+    x, y, z, w = SG("x"), SG("y"), SG("z"), SG("w")
+
+    def A2(l, r):
+        return NS(__cls__=("_Assign",), l=l, r=r, kind="A")
+    frags = {
+        "one whole assignment": [A2(x, "a")],
+        "one assignment to a part of a signal": [A2(PART(y, "y_lo"), "a")],
+        "two assignments to one signal": [A2(x, "a"), A2(x, "b")],
+        "if / else on two signals": [IF("c1", [A2(x, "a")], [A2(y, "b")])],
+        "three independent groups": [A2(x, "a"), IF("c1", [A2(z, "b")], []), A2(w, "c")],
+        "case with default": [CASE("sel", {k1: [A2(x, "a")], k0: [], "default": [A2(x, "d"), A2(y, "e")]})],
+    }
+
+    def units(text):
+        out, lines, i = [], text.splitlines(), 0
+        while i < len(lines):
+            ln = lines[i]
+            if ln.startswith("assign "):
+                out.append(("assign", None, parse(ln[len("assign "):])))
+            elif ln.startswith("always @("):
+                head = ln
+                body = []
+                i += 1
+                while i < len(lines) and lines[i] != "end":
+                    body.append(lines[i])
+                    i += 1
+                if i >= len(lines):
+                    raise ValueError("always block without end")
+                out.append(("always", head, parse("\n".join(body))))
+            elif ln.strip():
+                raise ValueError(f"unexpected line {ln!r}")
+            i += 1
+        return out
+
+    def run_model2(n, val, out):
+        if isinstance(n, (list, tuple)):
+            for x_ in n:
+                run_model2(x_, val, out)
+        elif n["kind"] == "A":
+            out.append((n["l"]["tok"], n["r"]))
+        elif n["kind"] == "I":
+            run_model2(n["t"] if val[n["cond"]] else n["f"], val, out)
+        else:
+            arm = [v for k_, v in n["cases"].items() if k_ != "default" and k_["value"] == val[n["test"]]]
+            run_model2(arm[0] if arm else n["cases"].get("default", []), val, out)
+    for fname in ("_generate_combinatorial_logic_synth", "_generate_combinatorial_logic_sim"):
+        pf = funcs.get(fname)
+        ctx.need(pf is not None, f"verilog.py: {fname} vanished")
+        bad_default = bad_wire = None
+        for label, comb in frags.items():
+            try:
+                got = pyconst.call(pf, {"f": NS(comb=comb, sync={}, clock_domains={}), "ns": ns2}, consts=c2, funcs=funcs)
+            except pyconst.Unknowable as ex:
+                ctx.need(False, f"{fname} cannot be interpreted on a model fragment ({ex})")
+            n_ev += 1
+            txt = got[1] if got[0] == "return" and isinstance(got[1], str) else None
+            try:
+                us = units(txt) if txt is not None else None
+            except ValueError as ex:
+                us = None
+                bad_default = bad_default or f"{label}: printed text does not parse ({ex})"
+            if us is None:
+                bad_default = bad_default or f"{label}: nothing printed"
+                continue
+            # wires: an `assign` only for a group that is one whole-signal assignment
+            n_assign = sum(1 for u in us if u[0] == "assign")
+            want_assign = sum(1 for g in group(comb) if len(g[1]) == 1 and g[1][0]["kind"] == "A" and g[1][0]["l"] is sig_of(g[1][0]["l"]))
+            if n_assign != want_assign and bad_wire is None:
+                bad_wire = f"{label}: {n_assign} continuous assignment(s) printed, {want_assign} group(s) consist of one whole-signal assignment: a signal " \
+                           f"with other drivers / other bits becomes a wire (undriven bits, no reset default)"
+            if any(u[0] == "assign" and (len(u[2]) != 1 or u[2][0][0] != "A" or u[2][0][2] != "=") for u in us) and bad_wire is None:
+                bad_wire = f"{label}: a continuous assignment is not a single `target = source;`"
+            for conds in itertools.product((0, 1), repeat=3):
+                for selv in (0, 1, 9):
+                    val = {"c1": conds[0], "c2": conds[1], "c3": conds[2], "sel": selv}
+                    want = {t_["tok"]: "R" + t_["tok"] for t_ in targets2(comb)}
+                    seq = []
+                    run_model2(comb, val, seq)
+                    for l_, r_ in seq:
+                        want[sig_of_tok(l_)] = (want.get(sig_of_tok(l_)), l_, r_) if l_ != sig_of_tok(l_) else r_
+                    have = {}
+                    for kind_, head, body in us:
+                        seq2 = []
+                        run_text(body, val, seq2)
+                        for l_, op_, r_ in seq2:
+                            have[sig_of_tok(l_)] = (have.get(sig_of_tok(l_)), l_, r_) if l_ != sig_of_tok(l_) else r_
+                    if want != have and bad_default is None:
+                        bad_default = f"{label}, {val}: the fragment leaves {want} (comb targets start from their reset value), the printed text leaves {have}: " \
+                                      f"latches / stale values in hardware"
+        ctx.ob("C01.f", VER, fname, "reset default for each target precedes the statements (printed text executed from reset)", bad_default is None,
+               bad_default or "", pf)
+        ctx.ob("C01.f", VER, fname, "wire only for a single whole-signal assignment (printed text)", bad_wire is None, bad_wire or "", pf)
+    # clocked blocks
+    ps = funcs.get("_generate_synchronous_logic")
+    ctx.need(ps is not None, "verilog.py: _generate_synchronous_logic vanished")
+    q_, p_, vt = SG("q"), SG("p"), SG("vt")
+    # (vt is a Migen `variable` signal: written and read back inside one clocked block, it needs the blocking '=')
+    sync = {"sys": [A2(vt, "d"), A2(q_, "vt"), IF("c1", [A2(q_, "e")], [])], "por": [A2(p_, "g")]}
+    c2["is_variable"] = Native(lambda s_: isinstance(s_, NS) and str(s_.get("tok", "")).startswith("v"))
+    cds = {"sys": NS(clk=SG("sys_clk"), rst=None), "por": NS(clk=SG("por_clk"), rst=None)}
+    c2["itemgetter"] = Native(lambda i_: None)
+    bad_s = None
+    try:
+        got = pyconst.call(ps, {"f": NS(comb=[], sync=sync, clock_domains=cds), "ns": ns2}, consts=c2, funcs=funcs)
+        n_ev += 1
+        txt = got[1] if got[0] == "return" and isinstance(got[1], str) else ""
+        us = units(txt)
+        seen = {}
+        for kind_, head, body in us:
+            m_ = _re.fullmatch(r"always @\(posedge (\w+)\) begin", head or "")
+            if kind_ != "always" or not m_:
+                bad_s = bad_s or f"unexpected block {head!r}"
+                continue
+            seen[m_.group(1)] = body
+        for dom, stmts in sync.items():
+            body = seen.get(cds[dom]["clk"]["tok"])
+            for c1v in (0, 1):
+                val = {"c1": c1v, "c2": 0, "c3": 0, "sel": 0}
+                want, have = [], []
+                run_model2(stmts, val, want)
+                if body is not None:
+                    run_text(body, val, have)
+                if (body is None or [(l_, "=" if l_.startswith("v") else "<=", r_) for l_, r_ in want] != have) and bad_s is None:
+                    bad_s = f"domain {dom}: block clocked by {cds[dom]['clk']['tok']} executes {have if body is not None else 'nothing (no such block)'}, the domain's " \
+                            f"statements are {want} (registers with '<=', the variable vt with '=')"
+        if len(seen) != len(sync) and bad_s is None:
+            bad_s = f"{len(seen)} clocked blocks for {len(sync)} domains"
+    except pyconst.Unknowable as ex:
+        ctx.need(False, f"_generate_synchronous_logic cannot be interpreted on a model fragment ({ex})")
+    except ValueError as ex:
+        bad_s = f"printed text does not parse ({ex})"
+    ctx.ob("C01.l", VER, "_generate_synchronous_logic", "clock of domain k with statements of domain k (printed text)", bad_s is None, bad_s or "", ps)
+    ctx.analysed["paths"] += n_ev
 
 
 def _expression_printer(ctx, em):
